@@ -50,6 +50,9 @@ def s_float(x=0.0):
     return _float(x)
 
 
+s_float._symx_dtype = _float
+
+
 class PepRecorder:
     """Stub of peps_from_scores (PEP estimators are not applicable to this technique, C06):
     records its arguments and returns one fresh symbol per row."""
